@@ -33,6 +33,9 @@ type cronJob struct {
 
 	last    time.Time
 	lastErr error
+
+	// the tick this job has been put into the spool for
+	spooled time.Time
 }
 
 func createCron(node gen.Node) *cron {
@@ -343,5 +346,10 @@ func (c *cron) scheduleJob(cj *cronJob) {
 	if cj.mask.IsRunAt(next) == false {
 		return
 	}
+	if cj.spooled.Equal(c.next) {
+		// it is in the spool for this tick already (EnableJob)
+		return
+	}
+	cj.spooled = c.next
 	c.spool.Push(cj)
 }
